@@ -132,6 +132,8 @@ func refRecvBody(sc Scn, src, view fsmodel.Tree, srcDir string, res *RefRecvRes)
 			}()
 		}
 		mfs := memfs.New(src)
+		// readers that hand out their last bytes together with io.EOF (archive/tar, many network readers)
+		mfs.EOFWithData = sc.Variant == "eofdata"
 		if sc.Fault.Kind == "read" {
 			// reading the K-th regular file of the source fails after J bytes
 			files := []string{}
@@ -541,6 +543,13 @@ func driveC06(p *Pool, r *evid.Run) {
 		for _, pol := range pols {
 			for _, cp := range caps {
 				v2 = append(v2, Scn{Kind: "refrecv", Src: "v2", Cap: cp, Policy: pol, Script: o, SelectAlts: true, Progress: true})
+			}
+		}
+	}
+	for _, o := range orders {
+		for _, pol := range []string{"run", "recv"} {
+			for _, cp := range caps {
+				v2 = append(v2, Scn{Kind: "refrecv", Src: "v2", Cap: cp, Policy: pol, Script: o, Variant: "eofdata", SelectAlts: true})
 			}
 		}
 	}
